@@ -599,7 +599,7 @@ fn run_real_once(text: &str) -> (Outcome, f64) {
 }
 
 /// (variant number, variant name, location, payload term)
-fn err_obs(e: &ParseError) -> (u32, &'static str, (usize, usize), String) {
+pub fn err_obs(e: &ParseError) -> (u32, &'static str, (usize, usize), String) {
     let l = |x: &tree_sitter_graph::Location| (x.row, x.column);
     let none = "[]".to_string();
     match e {
@@ -1384,7 +1384,8 @@ fn mutate_chars(rng: &mut Rng, text: &str) -> (String, &'static str) {
     }
 }
 
-pub fn gen_malformed(rng: &mut Rng, n: usize) -> Vec<Case> {
+/// The malformed texts of stream C05p: (text, tags, note).  Also the input of stream C05r (rendering of load errors).
+pub fn malformed_texts(rng: &mut Rng, n: usize) -> Vec<(String, Vec<String>, &'static str)> {
     let queries = query_pool();
     let mut out = Vec::with_capacity(n);
     // hand-written edge cases: a random subset (at most 2/5 of the stream), all of them in thorough runs
@@ -1392,7 +1393,7 @@ pub fn gen_malformed(rng: &mut Rng, n: usize) -> Vec<Case> {
     for i in (1..sp.len()).rev() { let j = rng.below(i + 1); sp.swap(i, j); }
     let mut sp: Vec<(String, String)> = core.into_iter().chain(sp).collect();   // empty / blank / comment-only inputs are in every run
     sp.truncate(n * 2 / 5);
-    for (kind, text) in sp { out.push(make_case("C05p", &text, None, vec![format!("mut:special:{}", kind), "src:special".into()], "hand-written edge case")); }
+    for (kind, text) in sp { out.push((text, vec![format!("mut:special:{}", kind), "src:special".into()], "hand-written edge case")); }
     while out.len() < n {
         let (base, src) = if rng.chance(50) {
             match gen_relayout_text(rng, true) { Some((t, _)) => (t, "src:gen_program"), None => continue }
@@ -1416,7 +1417,10 @@ pub fn gen_malformed(rng: &mut Rng, n: usize) -> Vec<Case> {
                 text = v.join("\r\n"); tags.push("mut:dangling-sigil-before-crlf".into()); } } }
         if text.chars().count() > MAX_TEXT { continue; }
         tags.push(format!("mutations={}", k));
-        out.push(make_case("C05p", &text, None, tags, "mutated valid text"));
+        out.push((text, tags, "mutated valid text"));
     }
     out
+}
+pub fn gen_malformed(rng: &mut Rng, n: usize) -> Vec<Case> {
+    malformed_texts(rng, n).into_iter().map(|(text, tags, note)| make_case("C05p", &text, None, tags, note)).collect()
 }
